@@ -19,16 +19,16 @@ theorem C13_col_major (columns n i : Nat) :
 /-- every item lands in one of the `columns` columns, and no two items share a cell -/
 theorem C13_cells (cm : Bool) (columns n : Nat) (hc : 1 ≤ columns) :
     (∀ i, i < n → (cellOf cm columns n i).2 < columns) ∧
-    (∀ i j, i < n → j < n → cellOf cm columns n i = cellOf cm columns n j → i = j) := by
-  sorry
+    (∀ i j, i < n → j < n → cellOf cm columns n i = cellOf cm columns n j → i = j) :=
+  ⟨cellOf_col_lt cm columns n hc, fun i j _ _ h => cellOf_inj cm columns n i j h⟩
 
 /-- the ordered map lists every item exactly once, each column top to bottom in item order, and
 the `r`-th entry of a column is the item of layout row `r` -/
 theorem C13_ordered_map (cm : Bool) (columns n : Nat) (hc : 1 ≤ columns) :
     (orderedMap cm columns n).flatten.Perm (List.range n) ∧
     (∀ c, (hcl : c < (orderedMap cm columns n).length) → ∀ r, (hr : r < ((orderedMap cm columns n)[c]).length) →
-        cellOf cm columns n (((orderedMap cm columns n)[c])[r]) = (r, c)) := by
-  sorry
+        cellOf cm columns n (((orderedMap cm columns n)[c])[r]) = (r, c)) :=
+  ⟨orderedMap_flatten_perm cm columns n hc, orderedMap_cell cm columns n hc⟩
 
 /-! ### a layout that cannot fit is refused -/
 
@@ -40,20 +40,27 @@ theorem C13_refuse (cc : CharClass) (st : WSt) (cm : Bool) (columns : Nat) (cw :
     (hbad : usedWidth cw columns spacing w ≤ 0 ∨
       ∃ k, kp = some k ∧ ∃ i, i < items.length ∧ usedWidth cw columns spacing w - (k.label i).length ≤ 0) :
     ∃ e, (Wd.list st cm columns cw spacing kp u nw items).render cc w = .error e := by
-  sorry
+  rw [render_list_eq, if_neg (by omega)]
+  have ⟨e, he⟩ := renderListItems_error cc (usedWidth cw columns spacing w) kp items 0 hn
+    (by simpa only [Nat.zero_add] using hbad)
+  rw [he]
+  exact ⟨e, rfl⟩
 
 /-- zero columns is an error of its own kind -/
 theorem C13_zero_columns (cc : CharClass) (st : WSt) (cm : Bool) (cw : Option Int) (spacing : Nat)
     (kp : Option KeyPat) (u : Option Int) (nw : List NumW) (items : List Wd) (w : Int)
     (h : cw = none ∨ cm = true ∨ items ≠ []) :
     (Wd.list st cm 0 cw spacing kp u nw items).render cc w = .error .zeroDivision := by
-  sorry
+  rw [render_list_eq, if_pos ⟨rfl, h⟩]
 
 /-- an empty container renders to nothing at any width -/
 theorem C13_empty (cc : CharClass) (st : WSt) (cm : Bool) (columns : Nat) (cw : Option Int) (spacing : Nat)
     (kp : Option KeyPat) (u : Option Int) (nw : List NumW) (w : Int) (hc : 1 ≤ columns) (r : Wd)
     (h : (Wd.list st cm columns cw spacing kp u nw []).render cc w = .ok r) : r.lines = [] := by
-  sorry
+  rw [render_list_eq, if_neg (by omega), renderListItems.eq_1] at h
+  cases h
+  show (drawColumns _ _ _ _ _ _ _ _).buf = []
+  rw [drawColumns_all_nil _ _ _ _ _ _ _ _ (orderedMap_zero_all_nil cm columns)]
 
 /-! ### what `render` draws -/
 
@@ -109,23 +116,23 @@ theorem C13_place_labels (cm : Bool) (columns : Nat) (hc : 1 ≤ columns) (used 
 
 /-- the row heights computed by the container dominate every item and label of the row -/
 theorem C13_row_height (cm : Bool) (columns : Nat) (heights : List Nat) (i : Nat) (hi : i < heights.length) :
-    heights[i] ≤ rowHeight cm columns heights (cellOf cm columns heights.length i).1 := by
-  sorry
+    heights[i] ≤ rowHeight cm columns heights (cellOf cm columns heights.length i).1 :=
+  rowHeight_ge cm columns heights i hi
 
 /-- Bands and rows do not overlap: the rectangles `[rowTop r, rowTop r + rowH r) × [colLeft c, colLeft c + used)`
 of distinct cells are disjoint, consecutive bands are `spacing` apart and a row starts where the row
 above ends. -/
 theorem C13_disjoint (used : Int) (hu : 0 < used) (spacing : Nat) (rowH : Nat → Nat) (r r' c c' : Nat) :
     (c < c' → colLeft used spacing c + used.toNat + spacing ≤ colLeft used spacing c') ∧
-    (r < r' → rowTop rowH r + rowH r ≤ rowTop rowH r') := by
-  sorry
+    (r < r' → rowTop rowH r + rowH r ≤ rowTop rowH r') :=
+  ⟨colLeft_mono used spacing c c', rowTop_mono rowH r r'⟩
 
 /-- with no forced columns width the whole layout fits the requested width: every band ends at or
 before column `w` -/
 theorem C13_within_width (columns spacing : Nat) (hc : 1 ≤ columns) (w : Int) (c : Nat) (hcc : c < columns)
     (hu : 0 < usedWidth none columns spacing w) :
-    ((colLeft (usedWidth none columns spacing w) spacing c : Nat) : Int) + usedWidth none columns spacing w ≤ w := by
-  sorry
+    ((colLeft (usedWidth none columns spacing w) spacing c : Nat) : Int) + usedWidth none columns spacing w ≤ w :=
+  usedWidth_fits columns spacing hc w c hcc hu
 
 /-! Non-vacuity: two columns, five numbered items, one of them wrapping. -/
 example :
